@@ -1,6 +1,8 @@
 """C01-C06 (and building blocks for C08/C09/C11): assertion sets over the
 symbolic rewrite harness.  Each property has its own make_check_* and re-runs
 the exploration; the assertion sets are selected by `props`."""
+import uuid
+
 import gtirb
 
 from harness import srh
@@ -1415,6 +1417,57 @@ def h_reorder(eng, spec, perm):
     compare_snapshots(eng, snapshot(a, True), snapshot(b, True), "C11 registration order %s:" % (list(perm),))
 
 
+def h_uuid_swap(eng, where):
+    """C11, UUID clause, for the one place where UUID *values* (not identity) could leak into the result: two functions
+    share a tail block; the same rewrite on two copies that differ only in which of the two function UUIDs is the smaller
+    one must give the same function tables."""
+    import gtirb_functions
+    import gtirb_rewriting
+    from gtirb_rewriting import Patch, RewritingContext, _auxdata
+
+    def run_once(u1, u2):
+        ir = gtirb.IR()
+        m = gtirb.Module(name="m", isa=gtirb.Module.ISA.X64, file_format=gtirb.Module.FileFormat.ELF, ir=ir,
+                         byte_order=gtirb.Module.ByteOrder.Little)
+        sect = gtirb.Section(name=".text", module=m, flags={gtirb.Section.Flag.Readable, gtirb.Section.Flag.Executable,
+                                                            gtirb.Section.Flag.Loaded, gtirb.Section.Flag.Initialized})
+        # f1: [nop; jmp tail]   f2: [nop; nop]  ->  tail: [nop; nop; ret] shared by both
+        bi = gtirb.ByteInterval(contents=b"\x90\xeb\x02" + b"\x90\x90" + b"\x90\x90\xc3", address=0x1000, section=sect)
+        e1 = gtirb.CodeBlock(offset=0, size=3, byte_interval=bi)
+        e2 = gtirb.CodeBlock(offset=3, size=2, byte_interval=bi)
+        tail = gtirb.CodeBlock(offset=5, size=3, byte_interval=bi)
+        ir.cfg.add(gtirb.Edge(e1, tail, gtirb.Edge.Label(gtirb.Edge.Type.Branch, direct=True)))
+        ir.cfg.add(gtirb.Edge(e2, tail, gtirb.Edge.Label(gtirb.Edge.Type.Fallthrough)))
+        ir.cfg.add(gtirb.Edge(tail, gtirb.ProxyBlock(module=m), gtirb.Edge.Label(gtirb.Edge.Type.Return)))
+        s1 = gtirb.Symbol("f1", payload=e1, module=m)
+        s2 = gtirb.Symbol("f2", payload=e2, module=m)
+        fb, fe, fn = {}, {}, {}
+        for u, ent, sym in ((u1, e1, s1), (u2, e2, s2)):  # same table order in both copies
+            fb[u], fe[u], fn[u] = {ent, tail}, {ent}, sym
+        m.aux_data["functionBlocks"] = gtirb.AuxData(fb, "mapping<UUID,set<UUID>>")
+        m.aux_data["functionEntries"] = gtirb.AuxData(fe, "mapping<UUID,set<UUID>>")
+        m.aux_data["functionNames"] = gtirb.AuxData(fn, "mapping<UUID,UUID>")
+        funcs = sorted(gtirb_functions.Function.build_functions(m), key=lambda f: {u1: 0, u2: 1}[f.uuid])
+        ctx = RewritingContext(m, funcs)
+        blk, off = {"tail-mid": (tail, 1), "tail-start": (tail, 0), "entry2-mid": (e2, 1)}[where]
+        ctx.insert_at(blk, off, Patch.from_function(gtirb_rewriting.patch_constraints()(lambda c: ".L_mark:\nnop\njmp .L_mark")))
+        ctx.apply()
+        names = {u1: "f1", u2: "f2"}
+        out = {}
+        for u, blocks in _auxdata.function_blocks.get(m).items():
+            out[names[u]] = sorted((b.address, b.size) for b in blocks)
+        ents = {names[u]: sorted(b.address for b in bs) for u, bs in _auxdata.function_entries.get(m).items()}
+        return out, ents, sorted((b.address, b.size) for b in m.code_blocks)
+
+    lo, hi = uuid.UUID(int=0x1111), uuid.UUID(int=0x9999)
+    a = run_once(lo, hi)
+    b = run_once(hi, lo)
+    eng.check(a == b, "C11 the function tables depend on the UUID values of the functions: %r vs %r" % (a, b))
+    allb = set(a[2])
+    owned = {x for v in a[0].values() for x in v}
+    eng.check(owned == allb, "C11/C06 a code block of the result belongs to no function: %r" % sorted(allb - owned))
+
+
 def make_check_C11(tier):
     from harness import rewrite_shapes
     chk = run.Check("C11", tier)
@@ -1440,7 +1493,22 @@ def make_check_C11(tier):
             continue
         for perm in legal_permutations(spec["mods"]):
             chk.add("%s/perm%s" % (sid, "".join(map(str, perm))), h_reorder, params=dict(spec=spec, perm=perm), timeout=900)
+    # symbol retargets are modifications too: chains and independent pairs registered in either order (assertions of C18)
+    from harness import retarget as RT
+    for fmt, pie in (("elf", True), ("pe", False)):
+        for a_int, b_int in ((True, True), (True, False), (False, True)):
+            for request in ("chain", "two"):
+                for rev in (False, True):
+                    chk.add("retarget-order/%s/A%s-B%s/%s/%s" % (fmt, "int" if a_int else "ext", "int" if b_int else "ext", request,
+                                                             "reversed" if rev else "forward"),
+                            RT.h_retarget, params=dict(fmt=fmt, pie=pie, a_int=a_int, b_int=b_int, request=request, reverse=rev,
+                                                            return_edges=False))
+    for where in ("tail-mid", "tail-start", "entry2-mid"):
+        chk.add("uuid-swap/shared-tail/%s" % where, h_uuid_swap, params=dict(where=where))
     chk.bounds = dict(BOUNDS)
+    chk.bounds["UUID values"] = ("only for the shared-tail layout: two copies of one module whose two function UUIDs are swapped in "
+                                 "magnitude (same table order); everything else about UUID draws is outside the claim")
+    chk.bounds["retarget requests"] = "A->B with B->C, and A->B with T->C, registered in both orders (x86-64 ELF PIE and PE)"
     chk.bounds["registration orders"] = "every permutation of the 2-3 requests that keeps the relative order of requests at the same location"
     chk.assumptions = list(ASSUME) + [
         "NOT decided here (outside the claim): independence from PYTHONHASHSEED / set iteration order / UUID draws - the "
